@@ -7,6 +7,9 @@ import common
 import am
 
 ASSUME = [
+    "every other execution feeds the map of a real TorState over a control connection: the script's leading events arrive half as "
+    "the bootstrap's GETINFO address-mappings/all answer and half as ADDRMAP events right after the ADDRMAP subscription is "
+    "acknowledged (while the bootstrap is still running); the map is compared once they are all in",
     "the wall clock used inside txtorcon.addrmap (datetime.utcnow) is replaced, in the harness process only, by one that follows the "
     "twisted task.Clock driving the timers; TZ=UTC so the local-time and UTC EXPIRES syntaxes denote the same instant",
     "several events may arrive within one reactor turn: zero-delay timers (mappings already expired on arrival) run at the next "
@@ -65,8 +68,11 @@ def run(pid, tier, seed):
     for i, (src, s) in enumerate(scripts):
         combos = [(TICKS[(i + j) % 3], SYNTAXES[(i // 3 + j) % 3]) for j in range(3)] if tier == "thorough" or src == "tlc" \
             else [(TICKS[i % 3], SYNTAXES[(i // 3) % 3])]
-        for tick, syn in combos:
-            t = am.replay(s, tick, syn, ["plain", "probe", "raise"][i % 3])
+        for j, (tick, syn) in enumerate(combos):
+            # every other script is fed to the map of a real TorState over a control connection (its leading events
+            # as the bootstrap's address-mappings snapshot and as events that arrive during the bootstrap)
+            feed = "state" if (i + j) % 2 else "direct"
+            t = am.replay(s, tick, syn, ["plain", "probe", "raise"][i % 3], feed)
             t["src"] = src
             traces.append(t)
         if any(e["a"] == "Advance" for e in s) and sum(1 for e in s if e["a"] == "Event") >= 2:
@@ -98,7 +104,7 @@ def run(pid, tier, seed):
                 rep.violation("real execution is not a behaviour of AddrMapM (tick %ds, syntax %s, listener mode %s): step %d %s observed %s"
                               % (traces[i]["tick"], traces[i]["syntax"], traces[i]["lmode"], k + 1,
                                  json.dumps(dict((a, b) for a, b in st.items() if a != "obs")), json.dumps(st["obs"])),
-                              dict(property=pid, module="AddrMapM", tick=traces[i]["tick"], syntax=traces[i]["syntax"], lmode=traces[i]["lmode"],
+                              dict(property=pid, module="AddrMapM", tick=traces[i]["tick"], syntax=traces[i]["syntax"], lmode=traces[i]["lmode"], feed=traces[i]["feed"],
                                    script=strip(traces[i]), matched=k, failing_step=st, errors=traces[i]["errors"]))
                 n += 1
         rep.cov["rejected_traces"] = len(bad)
@@ -114,7 +120,7 @@ def strip(t):
 
 def replay(pid, path):
     p = json.load(open(path))
-    t = am.replay(p["script"], p["tick"], p["syntax"], p.get("lmode", "plain"))
+    t = am.replay(p["script"], p["tick"], p["syntax"], p.get("lmode", "plain"), p.get("feed", "direct"))
     res, r = tlc.validate_traces("AddrMapMTrace", "AddrMapMTrace.cfg", [t])
     x = res[0]
     print("replay: matched %d of %d steps" % (x["matched"], x["wanted"]))
